@@ -6,7 +6,7 @@ CONSTANTS
   Bound = 24
   NegOrder = FALSE
 CONSTRAINT Cut
-INVARIANTS TypeOK OpsCounted OneReason NoStopMissed AtLeastOne OpsLimit OpsExact TOvershoot LogChained LogStart
+INVARIANTS CovSeen TypeOK OpsCounted OneReason NoStopMissed AtLeastOne OpsLimit OpsExact TOvershoot LogChained LogStart
            IntsOnlyWhenAsked IntsAtMostOnePerStep RomIntact ReportShape
 PROPERTIES ClockMonotone LockedLatchStays AcceptDisables StoppedIsFinal
 CHECK_DEADLOCK FALSE
